@@ -19,7 +19,8 @@ def to_text(v):
 
 
 class InstGen:
-    def __init__(self, rng, defs, hard_depth=12):
+    def __init__(self, rng, defs, hard_depth=12, undeclared=True):
+        self.undeclared = undeclared   # may add members the schema does not declare (open objects)
         self.r = rng
         self.defs = defs
         self.hard = hard_depth
@@ -225,7 +226,7 @@ class InstGen:
                     nm = self.pick(["extra", "k%d" % i, "zz top", "ünï"])
                     if nm not in props:
                         out[nm] = self.inst(ap, d + 1, minimal)
-            elif (ap is None or ap is True) and not pp and not minimal and self.chance(0.25):
+            elif self.undeclared and (ap is None or ap is True) and not pp and not minimal and self.chance(0.25):
                 nm = "unknown_extra_member"
                 if nm not in props:
                     out[nm] = self.pick([1, "x", None, [1], {"a": 1}])
@@ -312,4 +313,27 @@ def mutants(v, rng, limit=12):
             out.append(("str_edit", p, set_path(v, p, rng.choice([x + "x", x[:-1], x.upper(), x.lower(), "", x + "é"]))))
         elif x is None:
             out.append(("swap_type", p, set_path(v, p, 0)))
+    return out[:limit]
+
+
+def string_mutants(v, rng, limit=10):
+    """Boundary-oriented edits of string leaves: lengths L-3..L+5 built with 1-, 2-, 3- and 4-byte
+    characters, case flips, prefix/suffix edits."""
+    out = []
+    ps = [(p, x) for p, x in paths(v) if isinstance(x, str)]
+    rng.shuffle(ps)
+    pads = ["a", "é", "中", "😀"]
+    for p, x in ps[:3]:
+        L = len(x)
+        for d in (1, 2, 3, 5):
+            pad = rng.choice(pads)
+            out.append(("str_longer", p, set_path(v, p, x + pad * d)))
+        for d in (1, 2, 3):
+            if L - d >= 0:
+                out.append(("str_shorter", p, set_path(v, p, x[:L - d])))
+        if x:
+            out.append(("str_case", p, set_path(v, p, x.swapcase())))
+            out.append(("str_multibyte_same_len", p, set_path(v, p, x[:-1] + rng.choice(pads[1:]))))
+            out.append(("str_prefix", p, set_path(v, p, x[:max(1, L // 2)])))
+    rng.shuffle(out)
     return out[:limit]
